@@ -417,51 +417,63 @@ def u4(facts, rep):
     invb = {b for (b, _t) in inv}
     lookups = [b for b, t in k.calls() if t.get("callee") == FIND_KEY]
     n += 1
-    if not rep.check(bool(lookups), "U4", ks, "looks-up-key", "LeafUpdater::keep_up_to no longer looks the changed key up in the base leaf (BaseLeaf::find_key)", site=k.span, detail="base.find_key(up_to)"):
+    helper_lookup = False
+    if not lookups:
+        # the lookup sits in a helper whose result the caller branches on before it reports the cell
+        # (`if let Some(replaced) = self.keep_up_to(Some(&key)) { let (val, overflow) = base.cell(replaced); if overflow { cb(val) } }`)
+        via = [b for b, t in k.calls() if (t.get("callee") or "") in facts.bodies and any(tt.get("callee") == FIND_KEY for _b, tt in facts.bodies[t["callee"]].calls())]
+        for sb in range(k.n):
+            tt = k.term(sb)
+            if tt["k"] == "switch" and any(r.kind == "call" and r.bb in via for r in trace(k, tt["d"])) and any(k.dominates(sb, ib) for ib in invb):
+                helper_lookup = True
+        if helper_lookup:
+            rep.notes.append("U4: %s reports the replaced cell itself, behind a branch on the result of a helper that looks the key up; the path conditions inside the helper (found / nothing kept) are not decided" % ks)
+    if not helper_lookup and not rep.check(bool(lookups), "U4", ks, "looks-up-key", "LeafUpdater::keep_up_to no longer looks the changed key up in the base leaf (BaseLeaf::find_key)", site=k.span, detail="base.find_key(up_to)"):
         return n
+    if lookups:
 
-    def from_lookup(r, payload):
-        if r.kind != "call" or r.what != FIND_KEY:
-            return False
-        is_discr = bool(r.path) and r.path[-1][0] == "<discr>"
-        return (not is_discr) if payload else is_discr
+        def from_lookup(r, payload):
+            if r.kind != "call" or r.what != FIND_KEY:
+                return False
+            is_discr = bool(r.path) and r.path[-1][0] == "<discr>"
+            return (not is_discr) if payload else is_discr
 
-    found_sw, some_starts = [], []
-    for b in range(k.n):
-        t = k.term(b)
-        if t["k"] != "switch":
-            continue
-        rs = trace(k, t["d"])
-        if any(from_lookup(r, True) for r in rs):
-            found_sw.append(b)
-        elif any(from_lookup(r, False) for r in rs):
-            # the arm(s) in which the lookup produced a result
-            some_starts += [x for (v, x) in t["vals"] if str(v) != "0"]
-    if not some_starts:
-        some_starts = [x for lb in lookups for x in k.succ(lb)]
-    n += 1
-    if rep.check(bool(found_sw), "U4", ks, "tests-found", "LeafUpdater::keep_up_to never tests whether the changed key was found in the base leaf: a replaced cell's overflow pages cannot be released", site=k.span, detail="`if found` at bb%s" % found_sw):
-        bad = _must_pass(k, some_starts, set(found_sw) | invb)
+        found_sw, some_starts = [], []
+        for b in range(k.n):
+            t = k.term(b)
+            if t["k"] != "switch":
+                continue
+            rs = trace(k, t["d"])
+            if any(from_lookup(r, True) for r in rs):
+                found_sw.append(b)
+            elif any(from_lookup(r, False) for r in rs):
+                # the arm(s) in which the lookup produced a result
+                some_starts += [x for (v, x) in t["vals"] if str(v) != "0"]
+        if not some_starts:
+            some_starts = [x for lb in lookups for x in k.succ(lb)]
         n += 1
-        rep.check(bad is None, "U4", ks, "found-examined-on-every-path", "after BaseLeaf::find_key has located the changed key, keep_up_to can return (bb%s) without examining whether the key was found: when nothing is kept in front of it, the replaced cell's overflow pages are never reported and leak" % bad, site=k.term(lookups[0]).get("ln"), detail="every path from the lookup's result to the return passes the `found` test at bb%s" % found_sw)
-    # found => the cell is examined for overflow
-    ovf_sw = []
-    for b in range(k.n):
-        t = k.term(b)
-        if t["k"] != "switch" or b in found_sw:
-            continue
-        if termination.derives_from(k, t["d"], lambda r: r.kind == "call" and (str(r.what).startswith(BASE_LEAF) or str(r.what).startswith(LEAF_NODE)) and r.what != FIND_KEY and any(k.dominates(f, r.bb) for f in found_sw)):
-            ovf_sw.append(b)
-    n += 1
-    if rep.check(bool(ovf_sw), "U4", ks, "tests-overflow", "keep_up_to does not examine the found cell for overflow", site=k.span, detail="`if overflow` at bb%s" % ovf_sw):
-        for f in found_sw:
-            bad = _must_pass(k, _true_targets(k.term(f)), set(ovf_sw) | invb)
+        if rep.check(bool(found_sw), "U4", ks, "tests-found", "LeafUpdater::keep_up_to never tests whether the changed key was found in the base leaf: a replaced cell's overflow pages cannot be released", site=k.span, detail="`if found` at bb%s" % found_sw):
+            bad = _must_pass(k, some_starts, set(found_sw) | invb)
             n += 1
-            rep.check(bad is None, "U4", ks, "found-cell-examined", "with the changed key found, keep_up_to can return (bb%s) without examining the replaced cell for overflow" % bad, site=k.term(f).get("ln"), detail="found => overflow test at bb%s" % ovf_sw)
-        for o in ovf_sw:
-            bad = _must_pass(k, _true_targets(k.term(o)), invb)
-            n += 1
-            rep.check(bad is None, "U4", ks, "overflow-reported", "keep_up_to can return (bb%s) with an overflow cell found and replaced without invoking the deleted-overflow callback" % bad, site=k.term(o).get("ln"), detail="overflow => callback at bb%s" % sorted(invb))
+            rep.check(bad is None, "U4", ks, "found-examined-on-every-path", "after BaseLeaf::find_key has located the changed key, keep_up_to can return (bb%s) without examining whether the key was found: when nothing is kept in front of it, the replaced cell's overflow pages are never reported and leak" % bad, site=k.term(lookups[0]).get("ln"), detail="every path from the lookup's result to the return passes the `found` test at bb%s" % found_sw)
+        # found => the cell is examined for overflow
+        ovf_sw = []
+        for b in range(k.n):
+            t = k.term(b)
+            if t["k"] != "switch" or b in found_sw:
+                continue
+            if termination.derives_from(k, t["d"], lambda r: r.kind == "call" and (str(r.what).startswith(BASE_LEAF) or str(r.what).startswith(LEAF_NODE)) and r.what != FIND_KEY and any(k.dominates(f, r.bb) for f in found_sw)):
+                ovf_sw.append(b)
+        n += 1
+        if rep.check(bool(ovf_sw), "U4", ks, "tests-overflow", "keep_up_to does not examine the found cell for overflow", site=k.span, detail="`if overflow` at bb%s" % ovf_sw):
+            for f in found_sw:
+                bad = _must_pass(k, _true_targets(k.term(f)), set(ovf_sw) | invb)
+                n += 1
+                rep.check(bad is None, "U4", ks, "found-cell-examined", "with the changed key found, keep_up_to can return (bb%s) without examining the replaced cell for overflow" % bad, site=k.term(f).get("ln"), detail="found => overflow test at bb%s" % ovf_sw)
+            for o in ovf_sw:
+                bad = _must_pass(k, _true_targets(k.term(o)), invb)
+                n += 1
+                rep.check(bad is None, "U4", ks, "overflow-reported", "keep_up_to can return (bb%s) with an overflow cell found and replaced without invoking the deleted-overflow callback" % bad, site=k.term(o).get("ln"), detail="overflow => callback at bb%s" % sorted(invb))
     n += 1
     with_cell = [t.get("ln") for (b, t) in inv if any(_derives(k, a, lambda r: r.kind == "call" and (str(r.what).startswith(BASE_LEAF) or str(r.what).startswith(LEAF_NODE))) for a in t["args"][1:])]
     rep.check(bool(with_cell), "U4", ks, "callback(cell)", "no invocation of the deleted-overflow callback in keep_up_to is given a cell read from the base leaf", site=inv[0][1].get("ln"), detail="with_deleted_overflow(base.cell(to).0) at %s" % with_cell)
